@@ -186,38 +186,75 @@ def phys_order(z, T, S, P, combo):
     return -z, T, S, P              # neg-desc: 0 … -1500
 
 
-def pred_pressure(ctx, viol, z, T, S, fs, combo, P, raised, origin):
+def hydro_from_surface(d, Tp, Sp):
+    """independent oracle: atmospheric pressure plus the weight of the slab above the FIRST (shallowest) level,
+    evaluated with that level's own T and S, then the recurrence — in physical order (d >= 0 ascending)"""
+    return sp.hydrostatic(np.asarray(d, dtype=float), np.asarray(Tp, dtype=float), np.asarray(Sp, dtype=float))
+
+
+def bottom_first_values(z, T, S):
+    """exact signature of the recorded finding `pressure-bottom-first`: positive depths stored bottom-first, fs_loc=-1.
+    The loop reads P[i-1] while it is still 0: P[i] = 0 + rho(T[i-1],S[i-1],0) g (z[i]-z[i-1]) for 1 <= i <= n-2,
+    the last entry is the surface value, and P[0] wraps around to it."""
     from tamoc import seawater
+    n = len(z)
+    if n < 3 or not np.all(np.diff(z) < 0) or not z[-1] >= 0:
+        return None
+    want = np.zeros(n)
+    want[n - 1] = P_ATM + float(seawater.density(T[0], S[0], P_ATM)) * G * z[n - 1]
+    for i in range(n - 2, 0, -1):
+        want[i] = float(seawater.density(T[i - 1], S[i - 1], 0.0)) * G * (z[i] - z[i - 1])
+    want[0] = want[n - 1] + float(seawater.density(T[n - 1], S[n - 1], want[n - 1])) * G * (z[0] - z[n - 1])
+    return want
+
+
+def sig_bottom_first(z, T, S, P):
+    want = bottom_first_values(z, T, S)
+    return want is not None and close_arr(P, want)
+
+
+def sig_deepest_sample_slab(z, T, S, P):
+    """exact signature of `pressure-surface-slab-uses-deepest-sample`: negative depths ascending, fs_loc=-1, shallowest level
+    not at 0: everything is the hydrostatic recurrence except that the slab above the shallowest level is weighed with
+    rho(T[0], S[0]) — index 0 is the DEEPEST sample"""
+    from tamoc import seawater
+    d, Tp, Sp, Pp = -z[::-1], T[::-1], S[::-1], P[::-1]
+    if d[0] == 0.0:
+        return False
+    want = np.zeros(len(d))
+    want[0] = P_ATM + float(seawater.density(T[0], S[0], P_ATM)) * G * d[0]
+    for i in range(1, len(d)):
+        want[i] = want[i - 1] + float(seawater.density(Tp[i - 1], Sp[i - 1], want[i - 1])) * G * (d[i] - d[i - 1])
+    return close_arr(Pp, want)
+
+
+def pred_pressure(ctx, viol, z, T, S, fs, combo, P, raised, origin):
     ctx.count('pred:pressure:' + combo)
     ctx.evaluations += len(z)
     small = {'function': 'ambient.compute_pressure', 'convention': combo, 'fs_loc': fs, 'levels': len(z), 'origin': origin}
     full = lambda: {'z': tab(z), 'T': tab(T), 'S': tab(S), 'returned': None if P is None else tab(P)}
-    key = {'pos-desc': 'pressure-bottom-first', 'neg-desc': 'pressure-negative-surface-first'}.get(combo, 'pressure-not-hydrostatic')
     if raised is not None:
+        # recorded finding: exactly IndexError for negative depths with the free surface first
+        key = 'pressure-negative-surface-first' if (combo == 'neg-desc' and fs == 0 and raised == 'IndexError') \
+            else 'compute-pressure-raised:%s:%s' % (combo, raised)
         viol(key, 'compute_pressure raised %s for a documented (depth sign, fs_loc) combination' % raised, small, full)
         return
     d, Tp, Sp, Pp = phys_order(z, T, S, P, combo)
-    n = len(d)
-    if d[0] == 0.0:
-        if Pp[0] != P_ATM:
-            viol(key, 'surface pressure is not atmospheric', dict(small, surface_pressure=float(Pp[0])), full)
-            return
+    want = hydro_from_surface(d, Tp, Sp)
+    if close_arr(Pp, want) and (d[0] != 0.0 or Pp[0] == P_ATM) and np.all(np.diff(Pp) > 0):
+        return
+    bad = np.nonzero([not close(float(a), float(b), TOL['gen_vs_source']) for a, b in zip(Pp, want)])[0]
+    i = int(bad[0]) if len(bad) else 0
+    detail = dict(small, first_bad_level=i, depth=float(d[i]), pressure=float(Pp[i]), hydrostatic=float(want[i]))
+    if combo == 'pos-desc' and sig_bottom_first(z, T, S, P):
+        viol('pressure-bottom-first', 'positive depths stored bottom-first (fs_loc=-1): entries are read before they are computed', detail, full)
+    elif combo == 'neg-asc' and sig_deepest_sample_slab(z, T, S, P):
+        viol('pressure-surface-slab-uses-deepest-sample',
+             'negative depths, shallowest level below the surface: the water above it is weighed with the density of the DEEPEST sample (T[0], S[0])',
+             dict(detail, slip_Pa=float(Pp[0] - want[0])), full)
     else:
-        rho0 = sigma_theta(Tp, Sp)
-        lo, hi = P_ATM + 0.99 * rho0.min() * G * d[0], P_ATM + 1.01 * rho0.max() * G * d[0]
-        if not (lo <= Pp[0] <= hi):
-            viol(key, 'pressure at the first level is not atmospheric pressure plus the weight of the water above it',
-                 dict(small, first_level=float(d[0]), pressure=float(Pp[0]), admissible=[lo, hi]), full)
-            return
-    for i in range(n - 1):
-        want = Pp[i] + float(seawater.density(Tp[i], Sp[i], Pp[i])) * G * (d[i + 1] - d[i])
-        if not close(float(Pp[i + 1]), float(want), TOL['gen_vs_source']):
-            viol(key, 'pressure is not the hydrostatic recurrence P[i+1] = P[i] + rho(T[i],S[i],P[i]) g dz',
-                 dict(small, level=i + 1, depth=float(d[i + 1]), pressure=float(Pp[i + 1]), expected=float(want)), full)
-            return
-        if not Pp[i + 1] > Pp[i]:
-            viol(key, 'pressure does not increase with depth', dict(small, level=i + 1), full)
-            return
+        viol('pressure-not-hydrostatic', 'pressure is not atmospheric pressure at the surface followed by P[i+1] = P[i] + rho(T[i],S[i],P[i]) g dz',
+             detail, full)
 
 
 def pred_extract(ctx, viol, raw, zc, zstart, pc, out, raised, origin):
@@ -226,6 +263,13 @@ def pred_extract(ctx, viol, raw, zc, zstart, pc, out, raised, origin):
     full = lambda: {'data': tab(raw), 'returned': None if out is None else tab(out)}
     if raised is not None:
         ctx.count('extract-raised:' + raised)
+        zz = raw[:, zc]
+        if raised == 'IndexError' and np.all(zz[1:] < zstart):
+            # exact signature: every sample after the first is shallower than z_start, the first `while` runs off the end
+            viol('extract-profile-indexerror-all-above-z-start', 'extract_profile raises IndexError when the whole record is shallower than z_start',
+                 dict(small, deepest_sample=float(np.max(zz))), full)
+        else:
+            viol('extract-profile-raised:' + raised, 'extract_profile raised %s on a valid record' % raised, small, full)
         return
     z = out[:, zc]
     if not np.all(np.diff(z) > 0):
@@ -393,6 +437,8 @@ def function_cases(ctx, rng, b, viol, cast, origin):
     ctx.evaluations += 1
     if sraised is not None:
         ctx.count('stabilize-raised:' + sraised)
+        viol('stabilize-raised:' + sraised, 'stabilize raised %s on a table with non-negative increasing depths' % sraised,
+             {'function': 'ambient.stabilize', 'shape': list(sin.shape), 'origin': origin}, lambda: {'raw': tab(sin)})
     else:
         ctx.count('stabilize:dropped-rows' if sout.shape[0] < sin.shape[0] else 'stabilize:kept-all')
         ctx.nontrivial.add(('stabilize', sin.shape[0], k, cast['meta']['inverted_last']))
@@ -441,90 +487,141 @@ def function_cases(ctx, rng, b, viol, cast, origin):
           {'k': kk, 'zc': zc, 'zstart': zstart, 'pc': pc, 'real': eout, 'raised': eraised, 'origin': origin})
 
 
+def expected_units(cast):
+    """independent oracle for the unit labels: the standard unit of the unit each variable was supplied in"""
+    u = cast['units']
+    out = {'temperature': sp.STANDARD[u['T']], 'salinity': sp.STANDARD[u['S']], 'pressure': 'Pa'}
+    for name, _su, _v in cast['extra']:
+        out[name] = sp.STANDARD[u[name]]
+    return out
+
+
+def judge_profile(ctx, viol, p, route, cast, std, names, err, stab, origin):
+    """the property predicates on ONE constructed profile; std/names = the unit-converted input in the order this
+    input form stores it"""
+    ctx.count('pred:profile')
+    idata = np.array(p.interp_data, dtype=float)
+    fnames = [str(x) for x in p.f_names]
+    small = {'function': 'ambient.BaseProfile' if route == 'baseprofile' else 'ambient.Profile', 'route': route, 'err': err,
+             'stabilize_profile': stab, 'variable_order': names[1:], 'origin': origin}
+    full = lambda: {'data_in_standard_units': tab(std), 'names': names, 'interp_data': tab(idata), 'f_names': fnames}
+    if not np.all(np.diff(idata[:, 0]) > 0):
+        viol('profile-depths-not-increasing', 'stored depths are not strictly increasing', small, full)
+    missing = [nm for nm in names[1:] if nm not in fnames]
+    if missing:
+        viol('profile-variable-lost', 'a requested variable is not stored', dict(small, missing=missing), full)
+        return
+    cols = [0] + [1 + fnames.index(nm) for nm in names[1:]]
+    idx = match_rows(idata[:, cols], std)
+    if idx is None:
+        viol('profile-row-not-in-input', 'a stored row is not a row of the (unit-converted) input', small, full)
+    elif idx[0] != 0 or idx[-1] != std.shape[0] - 1:
+        viol('profile-first-last', 'first / last input row not stored', small, full)
+    if cast['P'] is None:
+        if 'pressure' not in fnames:
+            viol('pressure-not-integrated', 'no pressure was supplied and none was computed', small, full)
+        elif idx is not None:
+            want = sp.hydrostatic(cast['z'], cast['T'], cast['S'])[idx]
+            got = idata[:, 1 + fnames.index('pressure')]
+            if not close_arr(got, want):
+                viol('pressure-not-hydrostatic', 'integrated pressure of the constructed profile is not the hydrostatic integral from atmospheric pressure',
+                     dict(small, got_first=got[:3].tolist(), expected_first=want[:3].tolist()), full)
+    if stab and 'pressure' in fnames:
+        iT, iS = 1 + fnames.index('temperature'), 1 + fnames.index('salinity')
+        judge_density(ctx, viol, np.column_stack([idata[:, 0], idata[:, iT], idata[:, iS]]), small, full)
+    # ---- unit labels ----------------------------------------------------------------------------------
+    ctx.count('pred:units')
+    want_u = expected_units(cast)
+    got_u = dict(zip(fnames, [str(x) for x in p.f_units]))
+    wrong = {nm: (got_u.get(nm), want_u[nm]) for nm in fnames if nm in want_u and got_u.get(nm) != want_u[nm]}
+    if wrong:
+        before = names[1:] + ([] if 'pressure' in names else ['pressure'])      # variable order before xr_stabilize_dataset
+        unpermuted = [want_u[nm] for nm in before]
+        if stab and fnames != before and [str(x) for x in p.f_units] == unpermuted:
+            viol('stabilize-units-not-permuted', 'after stabilisation the unit labels are those of the variable order BEFORE the columns were reordered',
+                 dict(small, f_names=fnames, f_units=[str(x) for x in p.f_units], order_before=before, wrong=wrong), full)
+        else:
+            viol('profile-units-wrong', 'a stored variable carries the wrong unit label', dict(small, wrong=wrong, f_names=fnames), full)
+    return idata, fnames
+
+
 def profile_cases(ctx, rng, b, viol, cast, origin, workdir):
-    """real Profile construction: against the Lean pipeline, the predicates, and the adapters test"""
+    """real Profile construction through every input form that can express the cast: the predicates, the Lean
+    pipeline, and the adapters TEST"""
     err = pick_err(rng)
     stab = rng.random() < 0.6
-    routes = sp.routes_for(cast)
-    std, names, _units = sp.standard_table(cast)
-    built = {}
-    for route in routes:
+    canonical = cast['order'] == sp.cast_table(cast)[1][1:]
+    ctx.count('order:canonical' if canonical else 'order:non-canonical')
+    if cast['P'] is None:
+        ctx.count('cast:no-pressure' + ('+extras' if cast['extra'] else ''))
+    good = {}
+    sent = set()
+    for route in sp.all_routes(cast):
+        ctx.evaluations += 1
         with quiet():
             try:
-                built[route] = sp.build_profile(cast, route, workdir, err=err, stabilize=stab)
+                bt = sp.build_profile(cast, route, workdir, err=err, stabilize=stab)
+                exc = None
+            except sp.NotApplicable:
+                continue
             except Exception as e:
-                built[route] = e
-    ctx.evaluations += len(routes)
-    first = None
-    for route in routes:
-        bt = built[route]
+                bt, exc = None, e
         ctx.count('route:' + route)
-        if isinstance(bt, Exception):
-            ctx.count('construct-raised:%s:%s' % (route, type(bt).__name__))
+        std, names, _u = sp.standard_table(cast, dataset_order=(route != 'array'))
+        o2 = dict(origin, route=route, err=err, stab=stab)
+        if exc is not None:
+            ctx.count('construct-raised:%s:%s' % (route, type(exc).__name__))
+            small = {'function': 'ambient.Profile', 'route': route, 'err': err, 'stabilize_profile': stab, 'variable_order': names[1:],
+                     'raised': '%s: %s' % (type(exc).__name__, str(exc)[:200]), 'origin': origin}
+            full = lambda: {'data_in_standard_units': tab(std), 'names': names}
+            if cast['P'] is None and route in ('xarray', 'ncfile', 'ncdataset') and isinstance(exc, KeyError) and 'pressure' in str(exc):
+                viol('missing-pressure-keyerror', 'Profile(%s without a pressure variable) raises KeyError instead of integrating the pressure '
+                     '(BaseProfile on the same dataset integrates it)' % route, small, full)
+            else:
+                viol('construct-raised:%s:%s' % (route, type(exc).__name__), 'constructing a profile from a valid cast raised', small, full)
             continue
-        p = bt.profile
-        idata = np.array(p.interp_data, dtype=float)
-        if first is None:
-            first = (route, idata, list(p.f_names), list(p.f_units), float(p.z_min), float(p.z_max))
-            small = {'function': 'ambient.Profile', 'route': route, 'err': err, 'stabilize_profile': stab, 'origin': origin}
-            full = lambda: {'data_in_standard_units': tab(std), 'names': names, 'interp_data': tab(idata)}
-            # ---- predicates on the constructed profile ------------------------------------------
-            ctx.count('pred:profile')
-            if not np.all(np.diff(idata[:, 0]) > 0):
-                viol('profile-depths-not-increasing', 'stored depths are not strictly increasing', small, full)
-            cols = [0] + [1 + p.f_names.index(nm) for nm in names[1:]]
-            sub = idata[:, cols]
-            idx = match_rows(sub, std)
-            if idx is None:
-                viol('profile-row-not-in-input', 'a stored row is not a row of the (unit-converted) input', small, full)
-            elif idx[0] != 0 or idx[-1] != std.shape[0] - 1:
-                viol('profile-first-last', 'first / last input row not stored', small, full)
-            if cast['P'] is None and idx is not None:
-                want = sp.hydrostatic(cast['z'], cast['T'], cast['S'])[idx]
-                got = idata[:, 1 + p.f_names.index('pressure')]
-                if not close_arr(got, want):
-                    viol('pressure-not-hydrostatic', 'integrated pressure of the constructed profile is not the hydrostatic integral from atmospheric pressure',
-                         dict(small, got_first=got[:3].tolist(), expected_first=want[:3].tolist()), full)
-            if stab:
-                iT, iS = 1 + p.f_names.index('temperature'), 1 + p.f_names.index('salinity')
-                judge_density(ctx, viol, np.column_stack([idata[:, 0], idata[:, iT], idata[:, iS]]), small, full)
-            # ---- Lean pipeline on the same (unit-converted) table --------------------------------
-            ctx.nontrivial.add(('construct', std.shape, round(err, 6), stab, cast['P'] is None))
-            b.add('construct', req('Profile.construct', std.shape[1], std, ','.join(names[1:]), err, 1 if stab else 0),
-                  {'real': idata, 'names': list(p.f_names), 'zmin': float(p.z_min), 'zmax': float(p.z_max), 'raised': None,
-                   'origin': dict(origin, route=route, err=err, stab=stab), 'near_tie': near_tie(std[:, 1], std[:, 2])})
-        else:
-            # ---- adapters TEST: bit-for-bit the same profile ---------------------------------------
-            ctx.count('pred:adapters')
-            r0, d0, n0, u0, zmin0, zmax0 = first
-            if not (same(d0, idata) and n0 == list(p.f_names) and u0 == list(p.f_units)
-                    and zmin0 == float(p.z_min) and zmax0 == float(p.z_max)):
-                viol('adapter-mismatch:%s-vs-%s' % (route, r0), 'the same cast supplied in two input forms gives different profiles',
-                     {'routes': [r0, route], 'err': err, 'stabilize_profile': stab, 'origin': origin,
-                      'names': [n0, list(p.f_names)], 'units': [u0, list(p.f_units)], 'shapes': [list(d0.shape), list(idata.shape)]},
-                     lambda: {'data_in_standard_units': tab(std), 'names_in': names})
-    if all(isinstance(built[r], Exception) for r in routes):
-        # every form raised: compare with the model (which must raise too)
-        b.add('construct', req('Profile.construct', std.shape[1], std, ','.join(names[1:]), err, 1 if stab else 0),
-              {'real': None, 'names': None, 'zmin': None, 'zmax': None, 'raised': type(built[routes[0]]).__name__,
-               'origin': dict(origin, err=err, stab=stab), 'near_tie': False})
-    for bt in built.values():
-        if not isinstance(bt, Exception):
-            bt.close()
+        res = judge_profile(ctx, viol, bt.profile, route, cast, std, names, err, stab, origin)
+        if res is not None:
+            good[route] = (res[0], res[1], float(bt.profile.z_min), float(bt.profile.z_max))
+            # ---- Lean pipeline on the same (unit-converted) table, once per distinct variable order ----------
+            if tuple(names) not in sent:
+                sent.add(tuple(names))
+                ctx.nontrivial.add(('construct', std.shape, tuple(names), round(err, 6), stab))
+                b.add('construct', req('Profile.construct', std.shape[1], std, ','.join(names[1:]), err, 1 if stab else 0),
+                      {'real': res[0], 'names': res[1], 'zmin': float(bt.profile.z_min), 'zmax': float(bt.profile.z_max), 'raised': None,
+                       'origin': o2, 'near_tie': near_tie(std[:, 1 + names[1:].index('temperature')], std[:, 1 + names[1:].index('salinity')])})
+        bt.close()
+    # ---- adapters TEST: every pair of input forms stores bit-for-bit the same columns (compared BY NAME) ----
+    rs = list(good)
+    for r in rs[1:]:
+        ctx.count('pred:adapters')
+        d0, n0, zmin0, zmax0 = good[rs[0]]
+        d1, n1, zmin1, zmax1 = good[r]
+        ok = sorted(n0) == sorted(n1) and d0.shape == d1.shape and same(d0[:, 0], d1[:, 0]) and zmin0 == zmin1 and zmax0 == zmax1 \
+            and all(same(d0[:, 1 + n0.index(nm)], d1[:, 1 + n1.index(nm)]) for nm in n0)
+        if not ok:
+            viol('adapter-mismatch:%s-vs-%s' % (r, rs[0]), 'the same cast supplied in two input forms gives different profiles',
+                 {'routes': [rs[0], r], 'err': err, 'stabilize_profile': stab, 'origin': origin, 'names': [n0, n1],
+                  'shapes': [list(d0.shape), list(d1.shape)]}, lambda: {'first': tab(d0), 'second': tab(d1)})
 
 
 def raw_record_profile(ctx, rng, viol, cast, origin):
     """raw record -> extract_profile -> Profile: stored depths must be strictly increasing"""
     from tamoc import ambient
-    raw, rnames, rdesc = sp.add_reversals(rng, cast, bottom=True)
-    if 'pressure' not in rnames or raw.shape[0] < 4:
+    if cast['P'] is None:
         return
+    raw, rnames, rdesc = sp.add_reversals(rng, cast, bottom=True)
+    if raw.shape[0] < 4:
+        return
+    zstart = float(raw[0, 0]) + 1e-9
     with quiet():
         try:
-            ctd = ambient.extract_profile(raw.copy(), z_col=0, z_start=float(raw[0, 0]) + 1e-9, p_col=3)
+            ctd = ambient.extract_profile(raw.copy(), z_col=0, z_start=zstart, p_col=3)
             p = ambient.Profile(np.array(ctd[:, :4]), err=0.0, stabilize_profile=False)
         except Exception as e:
             ctx.count('raw-record-raised:' + type(e).__name__)
+            viol('raw-record-raised:' + type(e).__name__, 'extract_profile -> Profile raised on a valid raw record',
+                 {'raised': '%s: %s' % (type(e).__name__, e), 'z_start': zstart, 'origin': dict(origin, record=rdesc)}, lambda: {'data': tab(raw)})
             return
     ctx.evaluations += 1
     ctx.count('pred:raw-record-profile')
@@ -538,24 +635,98 @@ def raw_record_profile(ctx, rng, viol, cast, origin):
               'position': i + 1, 'origin': dict(origin, record=rdesc)}, lambda: {'data': tab(raw)})
 
 
-def bottom_first_profile(ctx, rng, viol, cast, origin):
-    """positive depths stored bottom-first without pressure: _create_profile_from_xarray passes fs_loc=-1"""
+def negative_from_bottom_values(z, T, S):
+    """exact signature of `profile-negative-surface-first-pressure`: negative depths stored surface-first; fs_loc is taken from
+    argmin(z) = the DEEPEST level, so the recurrence starts at the bottom with P_atm + rho(T[0],S[0]) g |z_bottom| and
+    subtracts on the way up"""
+    from tamoc import seawater
+    n = len(z)
+    want = np.zeros(n)
+    want[n - 1] = P_ATM + float(seawater.density(T[0], S[0], P_ATM)) * G * (-1) * z[n - 1]
+    for i in range(n - 2, -1, -1):
+        want[i] = want[i + 1] + float(seawater.density(T[i + 1], S[i + 1], want[i + 1])) * G * (z[i] - z[i + 1]) * (-1)
+    return want
+
+
+def convention_profile(ctx, rng, viol, cast, origin):
+    """the other depth conventions THROUGH Profile(): negative depths (surface first / bottom first) and positive depths
+    stored bottom-first, with and without a pressure column, stabilisation on/off"""
     from tamoc import ambient
-    z, T, S = cast['z'][::-1], cast['T'][::-1], cast['S'][::-1]
+    combo = rng.choice(['neg-surface-first', 'neg-bottom-first', 'pos-bottom-first'])
+    with_p = rng.random() < 0.4
+    stab = rng.random() < 0.35
+    z, T, S = cast['z'], cast['T'], cast['S']
+    Pphys = sp.hydrostatic(z, T, S)
+    if combo == 'neg-surface-first':
+        zz, TT, SS, PP = -z, T, S, Pphys
+    elif combo == 'neg-bottom-first':
+        zz, TT, SS, PP = -z[::-1], T[::-1], S[::-1], Pphys[::-1]
+    else:
+        zz, TT, SS, PP = z[::-1], T[::-1], S[::-1], Pphys[::-1]
+    if zz[0] == 0.0:
+        zz = zz + 0.0          # (no negative zero)
+    data = np.column_stack([zz, TT, SS] + ([PP] if with_p else []))
+    label = '%s/%s/%s' % (combo, 'with-P' if with_p else 'no-P', 'stab' if stab else 'no-stab')
+    ctx.count('convention:' + label)
+    ctx.count('pred:convention')
+    ctx.evaluations += 1
+    small = {'function': 'ambient.Profile', 'convention': combo, 'pressure_supplied': with_p, 'stabilize_profile': stab,
+             'levels': len(z), 'origin': origin}
+    full = lambda: {'data': tab(data)}
     with quiet():
         try:
-            p = ambient.Profile(np.column_stack([z, T, S]), err=0.0, stabilize_profile=False)
+            p = ambient.Profile(np.array(data), err=0.0, stabilize_profile=stab)
+            exc = None
         except Exception as e:
-            ctx.count('bottom-first-raised:' + type(e).__name__)
-            return
-    ctx.evaluations += 1
-    ctx.count('pred:bottom-first-profile')
-    P = np.array(p.interp_data[:, 3])
-    want = sp.hydrostatic(cast['z'], cast['T'], cast['S'])[::-1]
-    if not close_arr(P, want):
-        viol('pressure-bottom-first', 'Profile built from positive depths stored bottom-first: integrated pressure is not hydrostatic',
-             {'function': 'ambient.Profile', 'levels': len(z), 'pressure_first_rows': P[:4].tolist(), 'expected_first_rows': want[:4].tolist(),
-              'origin': origin}, lambda: {'z': tab(z), 'T': tab(T), 'S': tab(S)})
+            p, exc = None, e
+    if exc is not None:
+        what = '%s: %s' % (type(exc).__name__, str(exc)[:160])
+        without_stab = None
+        if stab and np.any(zz < 0) and isinstance(exc, ValueError):
+            with quiet():
+                try:
+                    ambient.Profile(np.array(data), err=0.0, stabilize_profile=False)
+                    without_stab = 'constructs'
+                except Exception as e2:
+                    without_stab = type(e2).__name__
+        if without_stab == 'constructs':
+            # exact mechanism: only the stabilisation step fails, because stabilize() masks the rows with z < 0
+            viol('stabilize-negative-depths-valueerror', 'Profile(negative depths, stabilize_profile=True) raises ValueError (the same data construct with '
+                 'stabilize_profile=False): stabilize masks every row with z < 0 and then interpolates on / at the remaining depths', dict(small, raised=what), full)
+        elif combo == 'neg-bottom-first' and not with_p and isinstance(exc, IndexError):
+            viol('profile-negative-bottom-first-indexerror', 'Profile(negative depths stored bottom-first, no pressure) raises IndexError: fs_loc is taken '
+                 'from argmin(z) (the deepest level) and compute_pressure(z<0, fs_loc=0) runs off the end', dict(small, raised=what), full)
+        else:
+            viol('construct-raised:convention:%s:%s' % (label, type(exc).__name__), 'constructing a profile in a documented depth convention raised',
+                 dict(small, raised=what), full)
+        return
+    idata = np.array(p.interp_data, dtype=float)
+    zs = idata[:, 0]
+    where = {float(v): i for i, v in enumerate(zz)}
+    idx = [where.get(float(v)) for v in zs]
+    if None in idx:
+        viol('profile-row-not-in-input', 'a stored depth is not a depth of the input', small, full)
+        return
+    if not with_p:
+        got = idata[:, 3]
+        if not close_arr(got, PP[idx]):
+            detail = dict(small, stored_pressure_first_rows=got[:4].tolist(), hydrostatic_first_rows=PP[idx][:4].tolist())
+            bf = bottom_first_values(zz, TT, SS) if combo == 'pos-bottom-first' else None
+            nb = negative_from_bottom_values(zz, TT, SS) if combo == 'neg-surface-first' else None
+            if bf is not None and close_arr(got, bf[idx]):
+                viol('pressure-bottom-first', 'positive depths stored bottom-first (fs_loc=-1): entries are read before they are computed', detail, full)
+            elif nb is not None and close_arr(got, nb[idx]):
+                viol('profile-negative-surface-first-pressure', 'Profile(negative depths stored surface-first, no pressure): fs_loc is taken from argmin(z), '
+                     'the integration starts at the bottom; the surface pressure is not atmospheric', dict(detail, surface_pressure=float(got[0])), full)
+            else:
+                viol('pressure-not-hydrostatic', 'integrated pressure of the constructed profile is not the hydrostatic integral from atmospheric pressure',
+                     detail, full)
+    if not np.all(np.diff(zs) > 0):
+        if np.all(np.diff(zs) < 0) and np.all(np.diff(zz) < 0) and idx == sorted(idx):
+            viol('profile-keeps-descending-input-order', 'a cast supplied from the surface down in negative depths / from the bottom up in positive depths '
+                 'is stored in that order: the stored depths are strictly DEcreasing', dict(small, stored_depths_first=zs[:3].tolist()), full)
+        else:
+            viol('profile-depths-not-increasing', 'stored depths are not strictly increasing', small, full)
 
 
 def run(ctx, lean_ok):
@@ -580,32 +751,43 @@ def _run(ctx, lean_ok, workdir):
     ncast = ctx.n(60, 700)
     for ci in range(ncast):
         rng = random.Random(ctx.rng.getrandbits(60))
-        cast = sp.make_cast(rng, 3, 2000)
+        # the first casts force the rarer configurations so that every quick run meets the floors
+        force = {0: dict(with_pressure=False, n_extra=2, shuffle_order=1.0), 1: dict(with_pressure=True, n_extra=3, shuffle_order=1.0),
+                 2: dict(with_pressure=False, n_extra=0), 3: dict(with_pressure=True, n_extra=2, shuffle_order=1.0, z_top=7.5)}.get(ci, {})
+        cast = sp.make_cast(rng, 3, 2000, nop_extras=True, shuffle_order=force.pop('shuffle_order', 0.5), **force)
         origin = {'cast': cast['meta']}
         ctx.count('levels:%s' % ('3-9' if len(cast['z']) < 10 else '10-99' if len(cast['z']) < 100 else '100-999' if len(cast['z']) < 1000 else '1000-2000'))
         function_cases(ctx, rng, b, viol, cast, origin)
         profile_cases(ctx, rng, b, viol, cast, origin, workdir)
         if rng.random() < 0.5:
             raw_record_profile(ctx, rng, viol, cast, origin)
-        if rng.random() < 0.15:
-            bottom_first_profile(ctx, rng, viol, cast, origin)
+        if rng.random() < 0.5 or ci < 12:
+            convention_profile(ctx, rng, viol, cast, origin)
         if ci < 4:
             ctx.sample({'levels': cast['meta']['levels'], 'extra': cast['meta']['extra'], 'units': cast['meta']['units'],
-                        'inversion_rows': cast['meta']['inversion_rows'][:6], 'with_pressure': cast['meta']['with_pressure']})
+                        'variable_order': cast['meta']['variable_order'], 'inversion_rows': cast['meta']['inversion_rows'][:6],
+                        'with_pressure': cast['meta']['with_pressure']})
     b.flush()
     if lean_ok:
         names = {'coarsen': 'Model.Profile.coarsen == ambient.coarsen (rows bit for bit)',
                  'stabilize': 'Model.Profile.stabilize == ambient.stabilize (row selection exact, rel %g)' % TOL['gen_vs_source'],
                  'pressure': 'Model.Profile.computePressure == ambient.compute_pressure (all four conventions, incl. raising; rel %g)' % TOL['gen_vs_source'],
                  'extract': 'Model.Profile.extractProfile == ambient.extract_profile (rows bit for bit, incl. raising)',
-                 'construct': 'Model.Profile.construct == ambient.Profile(...).interp_data / f_names / z_min / z_max (rel %g)' % TOL['gen_vs_source']}
+                 'construct': 'Model.Profile.construct == ambient.Profile(...).interp_data / f_names / z_min / z_max, canonical and non-canonical variable order, with and without pressure (rel %g)' % TOL['gen_vs_source']}
         for kind, nm in names.items():
             n, bad = b.stats.get(kind, [0, 0])
             ctx.oblige('correspondence %s on %d cases' % (nm, n), bad == 0 and n > 0, '%d disagreements' % bad)
-    ctx.oblige('TEST input adapters: same cast through array / xarray / netCDF file / open netCDF dataset gives bit-identical interp_data, names, units, z-range (%d comparisons)'
+    ctx.oblige('TEST input adapters: same cast through array / xarray / netCDF file / open netCDF dataset (/ BaseProfile) stores bit-identical columns by name, depths, z-range (%d comparisons)'
                % ctx.hist.get('pred:adapters', 0),
                not any(v['key'].startswith('adapter-mismatch') for v in ctx.violations) and ctx.hist.get('pred:adapters', 0) > 0,
                'see violations')
-    raised = {k: v for k, v in ctx.hist.items() if 'raised' in k}
-    if raised:
-        ctx.notes.append('calls that raised on the real code (counted; completion on valid input is C20): %r' % raised)
+    # ---- floors: the run must have exercised every function, input form, convention and the rarer configurations ----
+    h = ctx.hist
+    floors = [('pred:coarsen', 40), ('pred:stabilize', 40), ('pred:pressure:pos-asc', 40), ('pred:pressure:neg-asc', 40),
+              ('pred:pressure:pos-desc', 3), ('pred:pressure:neg-desc', 3), ('pred:extract', 40), ('pred:extract-surface-row', 3),
+              ('pred:profile', 100), ('pred:units', 100), ('pred:adapters', 60), ('pred:convention', 20), ('pred:raw-record-profile', 5),
+              ('coarsen:dropped-rows', 8), ('stabilize:dropped-rows', 8), ('order:non-canonical', 8), ('cast:no-pressure+extras', 1),
+              ('cast:no-pressure', 3)] + [('route:' + r, 15) for r in ('array', 'xarray', 'ncfile', 'ncdataset', 'baseprofile')]
+    low = [(k, h.get(k, 0), f) for k, f in floors if h.get(k, 0) < f]
+    ctx.oblige('coverage floors: every function, input form, depth convention and rare configuration exercised (%d counters)' % len(floors),
+               not low, 'below floor (counter, seen, floor): %r' % low)
